@@ -26,7 +26,7 @@ RULE = ("generator dimensions are tabulated in harness/c06_dims.py (173 entries:
         "discarded, queries, cleanup_*, convert_to_2d, a rejected add); point lists as arrays / python lists / integer arrays / empty / single; "
         "the same shape object queried twice; a second network sharing the lanelet objects; shapes built with default / integer / numpy-scalar "
         "arguments, through translate_rotate / rotate_translate_local, and with ONE attribute set after construction (before / after a "
-        "first query). four kinds of case (the fourth, meets: one polygon on the 1/16 grid x 5..9 shapes placed against it - sharing an edge, part of an edge, one vertex, strictly inside, around it, 1/16 or 1/256 off an edge, across an edge, circles, rotated rectangles; shapely intersects in both argument orders vs the exact predicates). net: 1..7 lanelets on the 1/16 grid (straight / curved strips in the four grid directions, arcs, "
+        "first query). five kinds of case (the fourth, meets: one polygon on the 1/16 grid x 5..9 shapes placed against it - sharing an edge, part of an edge, one vertex, strictly inside, around it, 1/16 or 1/256 off an edge, across an edge, circles, rotated rectangles; shapely intersects in both argument orders vs the exact predicates). net: 1..7 lanelets on the 1/16 grid (straight / curved strips in the four grid directions, arcs, "
         "adjacent lanes sharing a boundary, successors sharing an end edge, crossing (overlapping) and far-away lanelets), built by "
         "one of seven routes (create_from_lanelet_list, add_lanelet one by one, LaneletNetwork() left empty, Scenario.add_objects, "
         "XML file, protobuf file, open_lanelet_network), then 0..5 operations (add new / known id, remove known / unknown id, each "
@@ -35,6 +35,12 @@ RULE = ("generator dimensions are tabulated in harness/c06_dims.py (173 entries:
         "shapes (rectangle exact / rotated, circle, polygon, group; inside one lanelet, around a lanelet, touching, straddling, away); "
         "shape: one shape x its interesting points (contains_point vs exported geometry vs exact truth); obst: lanelets x static / "
         "set-based / trajectory obstacles of every shape kind (get_obstacles, map_obstacles_to_lanelets, filter_obstacles_in_network). "
+        "twin: SEVERAL LIVE NETWORKS derived from one another - slot 0 built by a route, forks (copy.deepcopy(network), copy.deepcopy(scenario), "
+        "pickle round trip of either, create_from_lanelet_network(net), create_from_lanelet_list(net.lanelets)) of any slot with the source kept "
+        "in use, 2..8 steps of add / remove / remove of an id only a sibling holds / add_lanelets_from_network / Scenario.add_objects / "
+        "Scenario.remove_lanelet / translate_rotate / discarded deepcopy or pickle (rebuilds) on ANY slot, new lanelets also with an id or at "
+        "the place of a sibling's lanelet; EVERY live network queried at the end (30 %: after every step) at the lanelets of all of them, each "
+        "judged against the exact polygons of the lanelets IT holds then (model: CR.Index.wrun, theorems C06_world_*). "
         "distinct = canonical JSON of the case; non-trivial = every case (each carries boundary queries by construction)")
 ASSUMPTIONS = [
     "GEOS predicates (intersects, dwithin, STRtree.query) are a parameter of the Lean model; their agreement with the exact closed-set "
@@ -56,6 +62,10 @@ ASSUMPTIONS = [
     "in which the changed array is assigned again (augmented assignment, self-assignment, the constructor's array) are in the quantifier",
     "histories in which a shape attribute is set after construction are judged by the oracle only (the model has no setters); a failure there has a key "
     "C06/*/stale-after-setter/<Class.attr>",
+    "histories on several live networks (case kind twin) use rebuilding operations only (rtree=True) and query with points, rectangles and "
+    "polygons (circle queries are the known r/2 finding and stay with the single-network cases); that the copies hand out fresh objects is "
+    "the hypothesis Function.Injective f of C06_world_*; a copy that shares a container with its source shows as a disagreement with "
+    "CR.Index.wrun and as an oracle failure C06/twin/*",
     "index states left stale on request (add_lanelet / remove_lanelet with rtree=False and no later rebuild) are modelled and covered by the "
     "theorems but not queried: the property speaks about networks built in a supported way",
 ]
@@ -78,7 +88,14 @@ REQUIRED_BUCKETS = ["net/route/list", "net/route/add", "net/route/empty", "net/r
                     "meets/poly", "meets/rect", "meets/circ", "meets/touching", "meets/true", "meets/false",
                     "net/lanelet/dtype/int-right+fractional-left", "net/lanelet/dtype/int-left+fractional-right", "net/lanelet/dtype/all-int",
                     "net/lanelet/dtype/float32", "net/lanelet/dtype/center-not-float64", "obst/lanelet/dtype/int-right+fractional-left",
-                    "obst/lanelet/dtype/int-left+fractional-right"]
+                    "obst/lanelet/dtype/int-left+fractional-right",
+                    # several live networks derived from one another (source AND copy used further; every one queried)
+                    "twin/fork/deepcopy", "twin/fork/pickle", "twin/fork/cut", "twin/fork/from-list", "twin/fork/sc-deepcopy",
+                    "twin/fork/sc-pickle", "twin/fork/of-a-fork-or-second-fork", "twin/three-or-more-live-networks",
+                    "twin/op-on/source", "twin/op-on/copy", "twin/history/edit-one-then-rebuild-other",
+                    "twin/history/edit-source-then-rebuild-copy", "twin/history/edit-copy-then-rebuild-source",
+                    "twin/op/rebuild-probe", "twin/op/sc_add", "twin/op/sc_remove", "twin/op/move", "twin/op/addFrom",
+                    "twin/queries-after-every-step", "twin/live-networks-differ"]
 
 BAND = Fraction(1, 10 ** 9)
 TOL = Fraction(1, 10 ** 15)
@@ -495,6 +512,119 @@ def gen_net_case(r):
     return {"kind": "net", "route": route, "lanelets": init, "ops": ops, "pts": net_points(r, geo, r.choice([10, 20, 30])),
             "shapes": net_shapes(r, geo, r.choice([4, 6, 10])),
             "ptform": r.choice(["array", "array", "list", "int"]), "shared": route == "add" and r.random() < 0.4}
+
+
+# ---------------------------------------------------------------------------- several live networks derived from one another
+
+FORKS = ["deepcopy", "deepcopy", "pickle", "cut", "from-list", "sc-deepcopy", "sc-deepcopy", "sc-pickle"]
+TWIN_ROUTES = ["list", "list", "list-nocleanup", "add", "scenario", "sc-list", "sc-list", "sc-net", "sc-replace", "xml", "pb-net"]
+REBUILDING = ("add", "remove", "addFrom", "sc_add", "sc_remove", "move", "rebuild-probe")
+
+
+def gen_twin_case(r):
+    """A history on SEVERAL live networks: slot 0 is built by a route; a fork (copy.deepcopy of the network or of its
+    Scenario, pickle round trip, create_from_lanelet_network, create_from_lanelet_list(net.lanelets)) makes a further live
+    network out of any slot and the source stays in use; every other step is an operation on one slot.  At the end (in
+    some cases after every step) EVERY slot is queried, at the places of the lanelets of all slots."""
+    route = r.choice(TWIN_ROUTES)
+    file_route = route in FILE_ROUTES
+    lanelets = _with_addr(vary_dtypes(r, gen_lanelets(r, nmax=5), p_snap=0.1))
+    ids0 = [l["id"] for l in lanelets]
+    lanelets = [_decorate(r, l, ids0, file_route) for l in lanelets]
+    used = set(ids0)
+    has_sc = route in SC_ROUTES
+    slots = [{"cur": list(lanelets), "sc": has_sc, "reg": set(ids0) if has_sc else set()}]
+    gone, hist = [], []
+
+    def new_lanelet(k):
+        cur = slots[k]["cur"]
+        cur_ids = {c["id"] for c in cur}
+        # id value class: new everywhere, or an id that another live network holds (or held) and this one does not
+        foreign = sorted({c["id"] for s in slots for c in s["cur"]} | {g["id"] for g in gone} - cur_ids - slots[k]["reg"])
+        foreign = [i for i in foreign if i not in cur_ids and i not in slots[k]["reg"]]
+        nid = r.choice(foreign) if foreign and r.random() < 0.35 else r.choice([i for i in range(1, 500) if i not in used])
+        used.add(nid)
+        l = _with_addr(gen_lanelets(r, ids=[nid], nmax=1))[0]
+        everywhere = [c for s in slots for c in s["cur"]]
+        if everywhere and r.random() < 0.6:     # over a lanelet of this or of another live network
+            src = r.choice(everywhere)
+            dx = r.choice([0.0, 1.0, 0.5])
+            l = dict(l, left=[[p[0] + dx, p[1] + dx] for p in src["left"]], right=[[p[0] + dx, p[1] + dx] for p in src["right"]])
+        return _decorate(r, vary_dtypes(r, [l])[0], sorted(cur_ids), True)
+
+    n_steps = r.choice([2, 3, 3, 4, 5, 6, 8])
+    for step in range(n_steps):
+        if len(slots) == 1 or (len(slots) < 4 and r.random() < 0.2):
+            k = r.randrange(len(slots))
+            how = r.choice([f for f in FORKS if slots[k]["sc"] or not f.startswith("sc-")])
+            hist.append({"fork": k, "how": how})
+            keeps_sc = how.startswith("sc-")
+            slots.append({"cur": list(slots[k]["cur"]), "sc": keeps_sc, "reg": set(slots[k]["reg"]) if keeps_sc else set()})
+            continue
+        k = r.randrange(len(slots))
+        sl = slots[k]
+        kind = r.choice(["add", "add", "remove", "remove", "remove-unknown", "add-known", "addFrom", "move", "rebuild-probe", "probe"])
+        if sl["sc"] and r.random() < 0.5:
+            kind = r.choice(["sc_remove", "sc_add"])
+        op = None
+        if kind == "add":
+            l = new_lanelet(k)
+            op = {"op": "add", "l": l, "rtree": True}
+            sl["cur"] = sl["cur"] + [l]
+        elif kind == "remove" and sl["cur"]:
+            v = r.choice(sl["cur"])
+            gone.append(v)
+            sl["cur"] = [c for c in sl["cur"] if c["id"] != v["id"]]
+            op = {"op": "remove", "id": v["id"], "rtree": True}
+        elif kind == "remove-unknown":
+            # an id this network does not hold (possibly one its sibling holds): nothing is removed, the index is rebuilt
+            cur_ids = {c["id"] for c in sl["cur"]}
+            foreign = sorted({c["id"] for s in slots for c in s["cur"]} - cur_ids)
+            nid = r.choice(foreign) if foreign and r.random() < 0.5 else r.choice([i for i in range(1, 500) if i not in used])
+            op = {"op": "remove", "id": nid, "rtree": True}
+        elif kind == "add-known" and sl["cur"]:
+            src = r.choice(sl["cur"])
+            op = {"op": "add", "l": _with_addr(gen_lanelets(r, ids=[src["id"]], nmax=1))[0], "rtree": True}   # rejected
+        elif kind == "addFrom":
+            ls = [new_lanelet(k) for _ in range(r.randint(0, 2))]
+            if len({l["id"] for l in ls}) == len(ls):
+                op = {"op": "addFrom", "ls": ls}
+                sl["cur"] = sl["cur"] + ls
+        elif kind == "sc_remove":
+            pres = [c for c in sl["cur"] if c["id"] in sl["reg"]]
+            if pres:
+                v = r.choice(pres)
+                gone.append(v)
+                sl["cur"] = [c for c in sl["cur"] if c["id"] != v["id"]]
+                sl["reg"].discard(v["id"])
+                op = {"op": "sc_remove", "ids": [v["id"]], "as_list": r.random() < 0.5, "ref": r.random() < 0.7}
+        elif kind == "sc_add":
+            ls = [new_lanelet(k) for _ in range(r.randint(1, 2))]
+            if len({l["id"] for l in ls}) == len(ls):
+                op = {"op": "sc_add", "ls": ls, "as_list": len(ls) > 1 or r.random() < 0.5, "expect": None, "n_ok": len(ls)}
+                sl["cur"] = sl["cur"] + ls
+                sl["reg"].update(l["id"] for l in ls)
+        elif kind == "move" and sl["cur"]:
+            t = [r.randint(-320, 320) / 16.0, r.randint(-320, 320) / 16.0]
+            op = {"op": "move", "t": t}
+            gone.extend(dict(c) for c in sl["cur"][:1])
+            sl["cur"] = [_shift(c, t) for c in sl["cur"]]
+        elif kind == "rebuild-probe":
+            op = {"op": "probe", "what": r.choice(["deepcopy-discard", "pickle-discard"])}
+        elif kind == "probe":
+            op = {"op": "probe", "what": r.choice(["queries", "cleanup", "contains", "by-id"])}
+        if op is not None:
+            hist.append({"on": k, "op": op})
+    geo = [c for s in slots for c in s["cur"]] + gone[:4]
+    seen, uniq = set(), []
+    for c in geo:
+        key = json.dumps([c["left"], c["right"]])
+        if key not in seen:
+            seen.add(key)
+            uniq.append(c)
+    shapes = [s for s in net_shapes(r, uniq or lanelets, r.choice([4, 6, 8])) if not geom.has_circle(s)]
+    return {"kind": "twin", "route": route, "lanelets": lanelets, "hist": hist, "pts": net_points(r, uniq or lanelets, r.choice([10, 16, 24])),
+            "shapes": shapes, "mid": r.random() < 0.3}
 
 
 def gen_shape_case(r):
@@ -1333,6 +1463,181 @@ def run_net(ctx, case, model=True):
         ctx.compare(case, {"ids": ids, "pos": impl_pos, "shape": impl_sh, "caught": impl_caught}, m, "LaneletNetwork lookups vs CR.Index.findByPosition/findByShape")
 
 
+def apply_fork(n, sc, how):
+    """A further live network made from (n, sc); the source is not touched.  Returns (network, owning scenario or None)."""
+    from commonroad.scenario.lanelet import LaneletNetwork
+    if how == "deepcopy":
+        return copy.deepcopy(n), None
+    if how == "pickle":
+        return pickle.loads(pickle.dumps(n)), None
+    if how == "cut":
+        return LaneletNetwork.create_from_lanelet_network(n), None
+    if how == "from-list":
+        return LaneletNetwork.create_from_lanelet_list(list(n.lanelets), cleanup_ids=False), None
+    if how in ("sc-deepcopy", "sc-pickle"):
+        if sc is None or sc.lanelet_network is not n:
+            raise ValueError("scenario fork without the owning scenario")
+        sc2 = copy.deepcopy(sc) if how == "sc-deepcopy" else pickle.loads(pickle.dumps(sc))
+        return sc2.lanelet_network, sc2
+    raise ValueError(how)
+
+
+def _twin_lookups(ctx, n, case, nps, tag):
+    """Oracle for ONE live network: its lookups against the exact geometry of the lanelets it holds NOW.  Returns
+    (ids, position answers, shape answers, ambiguous ids per point, ambiguous ids per shape)."""
+    pts, shapes = case["pts"], case["shapes"]
+    hist_txt = [("fork %d %s" % (h["fork"], h["how"])) if "fork" in h else ("%s on %d" % (h["op"]["op"], h["on"])) for h in case["hist"]]
+    rings = impl_rings(n)
+    ids = sorted(rings)
+    impl_pos, masks_pos, impl_sh, masks_sh = None, [], [], []
+    r = call(n.find_lanelet_by_position, nps) if pts else ("ok", [])
+    if r[0] == "err":
+        impl_pos = {"err": r[1]}
+        _fail(ctx, f"C06/twin/find_lanelet_by_position/raises-{r[1]}", f"{tag}: find_lanelet_by_position raises {r[2]} (history {hist_txt})",
+              dict(case, pts=pts[:1], shapes=[]))
+    else:
+        impl_pos = {"ok": []}
+        for p, got in zip(pts, r[1]):
+            q = (frac(p[0]), frac(p[1]))
+            want, amb = [], []
+            for i in ids:
+                ins, onb, near = geom.ring_point(q, rings[i], BAND)
+                if near:
+                    amb.append(i)
+                elif ins:
+                    want.append(i)
+            masks_pos.append(amb)
+            if amb:
+                ctx.excluded += 1
+            got = sorted(int(g) for g in got if int(g) not in amb)
+            impl_pos["ok"].append(got)
+            if got != want:
+                miss, extra = sorted(set(want) - set(got)), sorted(set(got) - set(want))
+                what = "misses" if miss else ("reports" if extra else "repeats")
+                _fail(ctx, f"C06/twin/find_lanelet_by_position/{what}",
+                      f"{tag} (lanelets {ids}), point {p}: find_lanelet_by_position = {got}, its lanelets whose polygon contains the "
+                      f"point = {want} (route {case['route']}, history {hist_txt})", dict(case, pts=[p], shapes=[]))
+    for spec in shapes:
+        rr = call(n.find_lanelet_by_shape, geom.build_shape(spec))
+        want, amb = [], []
+        for i in ids:
+            t, a = geom.shape_meets_ring(spec, rings[i], exported=True, band=BAND)
+            if a:
+                amb.append(i)
+            elif t:
+                want.append(i)
+        masks_sh.append(amb)
+        if amb:
+            ctx.excluded += 1
+        if rr[0] == "err":
+            impl_sh.append({"err": rr[1]})
+            _fail(ctx, f"C06/twin/find_lanelet_by_shape/raises-{rr[1]}/{spec['k']}", f"{tag}: find_lanelet_by_shape({spec}) raises {rr[2]} "
+                  f"(history {hist_txt})", dict(case, pts=[], shapes=[spec]))
+            continue
+        got = sorted(int(g) for g in rr[1] if int(g) not in amb)
+        impl_sh.append({"ok": got})
+        if got != want:
+            miss, extra = sorted(set(want) - set(got)), sorted(set(got) - set(want))
+            what = "misses" if miss else ("reports" if extra else "repeats")
+            _fail(ctx, f"C06/twin/find_lanelet_by_shape/{what}/{spec['k']}",
+                  f"{tag} (lanelets {ids}), shape {spec}: find_lanelet_by_shape = {got}, its lanelets whose polygon meets the shape = "
+                  f"{want} (route {case['route']}, history {hist_txt})", dict(case, pts=[], shapes=[spec]))
+    return ids, impl_pos, impl_sh, masks_pos, masks_sh
+
+
+def run_twin(ctx, case, model=True):
+    import numpy as np
+    route, lanelets, hist, pts = case["route"], case["lanelets"], case["hist"], case["pts"]
+    ctx.tag("twin/route/" + ("scenario-owned" if route in SC_ROUTES else "plain"))
+    ctx.case(case)
+    r = call(build_network, ctx, route, lanelets)
+    if r[0] == "err":
+        _fail(ctx, f"C06/build/{route}/raises-{r[1]}", f"building the network by route {route} raises {r[2]}", case)
+        return
+    live = [list(r[1])]                         # slot -> [network, owning scenario or None]
+    nps = [np.array(p, dtype=float) for p in pts]
+    family = [{0}]                              # slot -> slots it is related to by forks (itself included)
+    edited_since = [set()]                      # slot -> relatives whose lanelet set changed since this slot's last rebuild
+    for i, h in enumerate(hist):
+        if "fork" in h:
+            k = h["fork"]
+            ctx.tag("twin/fork/" + h["how"])
+            r = call(apply_fork, live[k][0], live[k][1], h["how"])
+            if r[0] == "err":
+                _fail(ctx, f"C06/twin/fork/{h['how']}/raises-{r[1]}", f"step {i}: fork of slot {k} by {h['how']} raises {r[2]}", case)
+                return
+            live.append(list(r[1]))
+            new = len(live) - 1
+            fam = family[k] | {new}
+            family.append(set())
+            for j in fam:
+                family[j] = fam
+            edited_since.append(set())
+            if k != 0 or any("fork" in g for g in hist[:i]):
+                ctx.tag("twin/fork/of-a-fork-or-second-fork")
+        else:
+            k, op = h["on"], h["op"]
+            kind = op["op"] if op["op"] != "probe" else ("rebuild-probe" if op["what"] in ("deepcopy-discard", "pickle-discard") else "probe")
+            ctx.tag("twin/op/" + kind)
+            ctx.tag("twin/op-on/" + ("source" if k == 0 else "copy"))
+            before = sorted(int(la.lanelet_id) for la in live[k][0].lanelets)
+            r = call(apply_op, live[k][0], op, live[k][1])
+            if r[0] == "err":
+                _fail(ctx, f"C06/twin/op/{op['op']}/raises-{r[1]}", f"step {i}: {op['op']} on slot {k} raises {r[2]}", case)
+                return
+            live[k][0], live[k][1], c = r[1]
+            if c is not None:
+                _fail(ctx, f"C06/twin/op/{op['op']}/unexpected-{c}", f"step {i}: {op['op']} on slot {k} raised {c}; the ids registered "
+                      f"in ITS scenario do not explain that", case)
+            changed = sorted(int(la.lanelet_id) for la in live[k][0].lanelets) != before or op["op"] == "move"
+            if kind in REBUILDING:
+                if edited_since[k]:
+                    ctx.tag("twin/history/edit-one-then-rebuild-other")
+                    if 0 in edited_since[k]:
+                        ctx.tag("twin/history/edit-source-then-rebuild-copy")
+                    if k == 0:
+                        ctx.tag("twin/history/edit-copy-then-rebuild-source")
+                edited_since[k] = set()
+            if changed:
+                for j in family[k] - {k}:
+                    edited_since[j].add(k)
+        if case.get("mid") and i + 1 < len(hist):
+            ctx.tag("twin/queries-after-every-step")
+            for j, (n, _) in enumerate(live):
+                _twin_lookups(ctx, n, case, nps, f"after step {i}, live network {j}")
+    if len(live) >= 3:
+        ctx.tag("twin/three-or-more-live-networks")
+    res = [_twin_lookups(ctx, n, case, nps, f"after the history, live network {j}") for j, (n, _) in enumerate(live)]
+    if len({tuple(x[0]) for x in res}) > 1:
+        ctx.tag("twin/live-networks-differ")
+
+    if model:
+        from_list = route in ("list", "list-nocleanup", "xml", "sc-net", "sc-replace")
+        init = {"fromList": [wire_lanelet(l) for l in lanelets], "shift": 50000} if from_list else {}
+        wops = [] if from_list else [{"on": 0, "op": {"op": "add", "l": wire_lanelet(l), "rtree": True}} for l in lanelets]
+        for i, h in enumerate(hist):
+            if "fork" in h:
+                wops.append({"fork": h["fork"], "shift": 100000 * (i + 1)})
+            else:
+                for mo in model_ops([h["op"]])[0]:
+                    if "shift" in mo:
+                        mo["shift"] = 100000 * (i + 1)                 # fresh objects per step (model_ops numbers from 0)
+                    wops.append({"on": h["on"], "op": mo})
+        m = ctx.driver.ask("C06", "world", {"tol": rat(TOL), "init": init, "wops": wops, "pts": wire_pts(pts),
+                                            "shapes": [wire_shape(s) for s in case["shapes"]]})
+        impl = [{"ids": ids, "pos": ip, "shape": ish} for ids, ip, ish, _, _ in res]
+        if "ok" in m and len(m["ok"]) == len(res):
+            out = []
+            for slot, (ids, ip, ish, mp, ms) in zip(m["ok"], res):
+                mpos = slot["pos"]
+                if "ok" in mpos and len(mp) == len(mpos["ok"]):
+                    mpos = {"ok": [sorted(i for i in got if i not in amb) for got, amb in zip(mpos["ok"], mp)]}
+                msh = [({"ok": sorted(i for i in ans["ok"] if i not in amb)} if "ok" in ans else ans) for ans, amb in zip(slot["shape"], ms)]
+                out.append({"ids": sorted(slot["ids"]), "pos": mpos, "shape": msh})
+            m = out
+        ctx.compare(case, impl, m, "lookups of every live network vs CR.Index.wrun + findByPosition/findByShape per slot")
+
+
 def _spec_ring(spec):
     if spec["k"] == "rect":
         return geom.ring_of(geom.rect_vertices(spec))
@@ -1753,6 +2058,8 @@ def run_case(ctx, case, model=True):
         run_shape(ctx, case, model)
     elif k == "meets":
         run_meets(ctx, case, model)
+    elif k == "twin":
+        run_twin(ctx, case, model)
     else:
         run_obst(ctx, case, model)
 
@@ -1775,6 +2082,8 @@ def run(ctx):
     r = ctx.rng
     for _ in range(ctx.n(260)):
         run_case(ctx, gen_net_case(r))
+    for _ in range(ctx.n(160)):
+        run_case(ctx, gen_twin_case(r))
     for _ in range(ctx.n(500)):
         run_case(ctx, gen_shape_case(r))
     for _ in range(ctx.n(200)):
@@ -1811,6 +2120,13 @@ def shrink(case, key):
             if _fails(dict(case, ops=[]), key):
                 ops = []
             case = dict(case, ops=ops)
+        if len(case["lanelets"]) > 1:
+            case = dict(case, lanelets=shrink_list(case["lanelets"], lambda x: _fails(dict(case, lanelets=x), key), 40))
+    elif case["kind"] == "twin":
+        # dropping a fork makes later steps name a slot that does not exist: such a candidate does not fail and is not taken
+        case = dict(case, mid=False) if _fails(dict(case, mid=False), key) else case
+        if case["hist"]:
+            case = dict(case, hist=shrink_list(case["hist"], lambda x: _fails(dict(case, hist=x), key), 60))
         if len(case["lanelets"]) > 1:
             case = dict(case, lanelets=shrink_list(case["lanelets"], lambda x: _fails(dict(case, lanelets=x), key), 40))
     elif case["kind"] == "obst":
